@@ -7,3 +7,8 @@ CLAIMS = {
         "technique": "runtime monitoring: relational oracle over generated key pools + gated/Miri race executions",
     },
 }
+CLAIMS["C05"] = {
+    "text": "Exploration with deterministic window coverage: every hook window of push/clear_with/data_with (11 windows) is entered by every intruding operation (push, data_with, clear_with, is_empty) over 11 prefill shapes through directed gates; thousands of randomly-held and stress executions add undirected interleavings; an offline interval oracle over unique-id histories decides exactly-once / no-loss / no-fabrication / snapshot-completeness / is_empty truthfulness / slice order; drop-counting elements decide exactly-once destruction; the same workloads run under ASan+LSan and Miri (tree borrows, weak memory). Held = no violating history among the executions observed.",
+    "note": "Windows exist only where hook points exist (atomic steps of push/clear_with/data_with); orderings weaker than x86-TSO are visible only in the Miri leg (2-3 threads, tens of ops); crossbeam-epoch is trusted.",
+    "technique": "runtime monitoring: offline interval/exactly-once checker over stamped unique-value histories; directed gate + random-hold hook schedules; ASan/LSan and Miri legs",
+}
